@@ -52,7 +52,11 @@ def _pattern_ops(rng, ctx):
     def rec(eid, q):
         return {'k': 'raw', 'id': eid, 'q': q, 'a': [rng.randrange(0, 4) for _ in range(4)]}
     a, b = code(), code()
-    kind = rng.pick(['stray', 'reopen', 'cross', 'nest', 'startonly', 'all', 'strayinside', 'samename', 'crossdec'])
+    kind = rng.pick(['stray', 'reopen', 'cross', 'nest', 'startonly', 'all', 'strayinside', 'samename', 'crossdec', 'dup', 'dup'])
+    if kind == 'dup':
+        # the same record twice, equal in every field (under tied timestamps even the timestamp): still two events
+        r1 = rec(b, rng.pick([1, 0, 3, 1]))
+        return [rec(a, 1), r1, dict(r1), rec(a, 2)]
     if kind == 'samename':
         return [worlds.op_same_name_pair(rng)]
     if kind == 'crossdec':
@@ -124,7 +128,8 @@ def generate(rng, index, tier):
             faults.append({'k': 'kill', 'th': rng.randrange(nthreads), 'after': rng.randrange(0, 10)})
     scn['faults'] = faults
     scn['tmap'] = rng.chance(0.5)          # the parser is built with a populated thread map (as PyKdebugParser does on reuse)
-    scn['earlier'] = rng.chance(0.2)       # another parser object in the same process saw unfinished operations of these threads
+    scn['earlier'] = rng.chance(0.2)
+    scn['late_table'] = rng.chance(0.1)    # the caller completes the code table it handed over after building the parser       # another parser object in the same process saw unfinished operations of these threads
     if rng.chance(0.15):
         # id-remapped table: a decodable name lives under another id
         cat = worlds.catalog()
@@ -162,7 +167,14 @@ def execute(scn):
     if scn.get('tmap'):
         bump('probe:parser_built_with_thread_map')
         tmap = {th['tid']: 5000 + i for i, th in enumerate(scn['threads'])}
-    parser = tool.tp_mod.TracesParser(table, tmap, {p: 'proc%d' % p for p in tmap.values()})
+    if scn.get('late_table'):
+        partial = {k: v for k, v in table.items() if v not in tool.TRACE_DOMAIN_NAMES and k % 8 != 0}
+        parser = tool.tp_mod.TracesParser(partial, tmap, {p: 'proc%d' % p for p in tmap.values()})
+        partial.update(table)          # same dict object, completed before the first event is fed
+        table = partial
+        bump('table_completed_after_construction')
+    else:
+        parser = tool.tp_mod.TracesParser(table, tmap, {p: 'proc%d' % p for p in tmap.values()})
     calls = []
     depth = [0]
 
